@@ -492,3 +492,28 @@ def flag_states(ir, fsm, name):
         kinds = {v for v, g in tail}
         out[st] = kinds.pop() if len(kinds) == 1 else 'cond'
     return out
+
+
+def const_table(drivers, index_name):
+    """A constant lookup table written either as `Array(consts)[index]` in one assignment or as one constant assignment per
+    value of the index (`Switch(index)` / If-chain over `K == index`): (values by index, the assignments, common guard atoms)
+    or None.  Entries that are not integer constants are None."""
+    ds = list(drivers)
+    if len(ds) == 1 and isinstance(ds[0].rhs, E) and ds[0].rhs.op == 'arr' and isinstance(ds[0].rhs.args[0], E) and \
+            ds[0].rhs.args[0].canon() == index_name:
+        vals = [x.val if isinstance(x, E) and x.op == 'const' and isinstance(x.val, int) else None for x in ds[0].rhs.args[1:]]
+        return vals, ds, atoms(ds[0])
+    by, common = {}, None
+    for a in ds:
+        ks = guard_consts(a, index_name)
+        sel = [k for k, v in ks.items() if v is True]
+        if len(sel) != 1 or not isinstance(a.rhs, E):
+            return None
+        rest = {(x, p) for x, p in atoms(a) if index_name not in x}
+        common = rest if common is None else (common & rest)
+        if sel[0] in by:
+            return None
+        by[sel[0]] = a.rhs.val if a.rhs.op == 'const' and isinstance(a.rhs.val, int) else None
+    if not by or sorted(by) != list(range(len(by))):
+        return None
+    return [by[k] for k in sorted(by)], ds, common or set()
